@@ -454,11 +454,30 @@ def main(argv=None):
     ap.add_argument('--dump', default=None)
     ap.add_argument('--tier', default=os.environ.get('VERIF_TIER', 'quick'))
     a = ap.parse_args(argv)
+    pkgs = [MOD + '/' + p for p in a.pkgs.split(',')]
     if a.cmd == 'check':
         seed = int(os.environ.get('VERIF_SEED', '0') or 0)
         return check_property(a.args[0], a.tier, seed)
     if a.cmd == 'lock':
         return write_lock(a.args)
+    if a.cmd == 'bounded':
+        from . import bounded
+        ses = Session(pkgs)
+        filt = None
+        if a.func:
+            kv = dict(x.split('=') for x in a.func)
+            filt = lambda sh: all(str(sh.get(k)) == v_ for k, v_ in kv.items())
+        r = bounded.run_check(ses, a.args[0], a.tier, a.timeout, filt)
+        print('bounded %s: shapes %d queries %d failures %d errors %d wall %.1fs' % (r['check'], r['shapes'], r['queries'], len(r['failures']), len(r['errors']), r['wall_s']))
+        for f_ in r['failures'][:40]:
+            print('   FAIL', f_['shape'], f_['obligation'], 'L%d' % f_['line'], f_['status'], (f_['clause'] or '')[:80])
+        for e_ in r['errors'][:5]:
+            print('   ERROR', e_)
+        if a.dump and r['failures']:
+            f_ = r['failures'][0]
+            open('/tmp/dump.smt2', 'w').write(solve.emit(f_['ctx'], f_['ob']))
+        shutil.rmtree(ses.workdir, ignore_errors=True)
+        return 0
     pkgs = [MOD + '/' + p for p in a.pkgs.split(',')]
     if a.cmd == 'verify':
         ses = Session(pkgs)
